@@ -1,9 +1,9 @@
 PROPS = ["CTV.Props.C13"]
-HARNESS = [dict(pkg="./jsonclient/", test="TestVerifC13", synctest=True)]
+HARNESS = [dict(pkg="./jsonclient/", test="TestVerifC13", synctest=True, race=True)]
 RULE = ("(a) sequences of backoff.set(override|nil) on the real unexported backoff struct under virtual time (testing/synctest), compared exactly "
         "(wait, notBefore, multiplier) with the regenerated kernel; (b) PostAndParseWithRetry over a scripted in-memory RoundTripper in virtual time: "
         "response streams over {network error, unparsable 200, 408, 429/503 with Retry-After absent / seconds 0,1,2,30,200,3600,-1 / HTTP-date / junk, "
         "400,403,404,500,501,502,504,201,204, redirects 301/302/303/307/308, parsable 200}, context deadlines at arbitrary virtual instants; every request instant "
         "must fall in the window the model allows for the unknown jitter draw; non-trivial = distinct trace lines")
 TRUSTED = ["testing/synctest virtual clock (go1.24.1 experiment)", "net/http client redirect handling", "math/rand jitter draw constrained to [0, maxJitter)"]
-ASSUMPTIONS = ["instants between 1970 and 2116 (the InT hypotheses)", "backoff.set/until are atomic (sync.RWMutex), so concurrent callers are a sequence of the modelled steps"]
+ASSUMPTIONS = ["instants are exact (unbounded Int ns); time.Time.Sub / time.Until saturate, Duration arithmetic wraps — as in Go", "backoff.set/until are atomic (sync.RWMutex), so concurrent callers are a sequence of the modelled steps"]
